@@ -5,7 +5,7 @@ import ast
 
 from ..cfg import CFG
 from ..pattern import find, pmatch
-from ..core import (phase_helpers, AnalysisError, assigned_targets, body_nodes, call_name, dotted, is_self_attr,
+from ..core import (kwarg, phase_helpers, AnalysisError, assigned_targets, body_nodes, call_name, dotted, is_self_attr,
                     key_text, names_in, parent, root_name, stmts_of, unparse)
 
 NPC = 'tenpy/linalg/np_conserved.py'
@@ -563,6 +563,10 @@ def run(prog, rep, tier):
              'C-contiguous; add_leg indexes the extended tensor with rank + 1 entries')
     if check_qdata_contiguous(prog, rep) < 4:
         raise AnalysisError('QDATA-contiguous: fewer than 4 wrapped column selections / add_leg')
+    rep.rule('DTYPE-wrapped-block', 'a tensor wrapping a piece of a numpy array as its block declares '
+             'the dtype of that array')
+    if check_wrapped_block_dtype(prog, rep) < 1:
+        raise AnalysisError('DTYPE-wrapped-block: the eigenvector wrapping of speigs not found')
     rep.rule('COUPLED-shared-list', 'the list _data, shared with shallow copies, never changes its '
              'length in place (only by re-binding, like _qdata)')
     if check_shared_data_list(prog, rep) < 20:
@@ -779,3 +783,50 @@ def check_qdata_contiguous(prog, rep):
                     'the rank of self: the position `axis == rank` (new leg last) is out of range'
                     % key_text(st)[:60], st.lineno)
     return wrapped + k
+
+
+# ------------------------------------------------------------------ DTYPE-wrapped-block
+def check_wrapped_block_dtype(prog, rep):
+    """DTYPE-wrapped-block: `X = zeros(legs, dtype=D, ..)` followed by `X._data = [V[..]]` wraps a
+    piece of the numpy array V as the only block of X. The declared dtype must be the dtype of what
+    is stored: D is `V.dtype` (or the block is converted with `.astype(D)`). Declaring the dtype of
+    the INPUT of a computation whose result may be of another type (eigenvectors of a real
+    non-symmetric matrix are complex) produces a tensor that lies about its dtype."""
+    m = prog.module(NPC)
+    n = 0
+    for q, f in m.functions.items():
+        decl = {}
+        for st in stmts_of(f):
+            if isinstance(st, ast.Assign) and isinstance(st.targets[0], ast.Name) and isinstance(
+                    st.value, ast.Call) and call_name(st.value) in ('zeros', 'Array'):
+                d = kwarg(st.value, 'dtype')
+                if d is None and call_name(st.value) == 'Array' and len(st.value.args) > 1:
+                    d = st.value.args[1]
+                if d is None and call_name(st.value) == 'zeros' and len(st.value.args) > 1:
+                    d = st.value.args[1]
+                if d is not None:
+                    decl[st.targets[0].id] = unparse(d)
+        for st in stmts_of(f):
+            if not (isinstance(st, ast.Assign) and isinstance(st.targets[0], ast.Attribute) and
+                    st.targets[0].attr == '_data' and isinstance(st.targets[0].value, ast.Name) and
+                    st.targets[0].value.id in decl and isinstance(st.value, ast.List) and
+                    len(st.value.elts) == 1):
+                continue
+            e = st.value.elts[0]
+            base = e
+            while isinstance(base, ast.Subscript):
+                base = base.value
+            if not (isinstance(base, ast.Name) and isinstance(e, ast.Subscript)):
+                continue
+            n += 1
+            D = decl[st.targets[0].value.id]
+            ok = D == base.id + '.dtype'
+            rep.instance('DTYPE-wrapped-block', {'function': q, 'block': unparse(e)[:30],
+                                                 'declared': D, 'ok': ok})
+            if not ok:
+                rep.violation('DTYPE-wrapped-block', m, q, 'declared-dtype:' + D,
+                              '`%s` stores a piece of `%s` as the block of a tensor declared with '
+                              'dtype `%s`, not `%s.dtype`: when the computation changes the type '
+                              '(complex eigenvectors of a real matrix) the tensor fails test_sanity'
+                              % (key_text(st)[:50], base.id, D, base.id), st.lineno)
+    return n
